@@ -122,11 +122,11 @@ def shoc_standard(c, *, as_coords=True, coord_kind='floatnan', extra=()):
 
 
 def ugrid(c, *, edges='none', transposed=False, start_index=0, fill='none', coords_as='vars',
-          face_dimension_attr=True, edge_transposed=False, extra=(), face_coords=False, tables=(), edge_coords=False):
+          face_dimension_attr=True, edge_transposed=False, extra=(), face_coords=False, tables=(), edge_coords=False, kw_maxn=None):
     """edges: 'none' | 'dimension' (edge_dimension attr only) | 'edge_node' (connectivity variable, implied
     dimension) | 'both'."""
     nnode, nface = sym_size(c, 'nnode', 0), sym_size(c, 'nface', 0)
-    maxn = sym_size(c, 'maxn', 3)
+    maxn = kw_maxn if kw_maxn is not None else sym_size(c, 'maxn', 3)
     ds = XDataset(attrs={'Conventions': 'UGRID-1.0'})
     mesh_attrs = {'cf_role': 'mesh_topology', 'topology_dimension': 2, 'node_coordinates': 'node_x node_y',
                   'face_node_connectivity': 'face_node'}
@@ -232,3 +232,60 @@ def native_index(convention, kind_member_, idx):
     if convention in ('CFGrid1D', 'CFGrid2D', 'ShocSimple'):
         return tuple(idx)
     return (kind_member_,) + tuple(idx)
+
+
+FILL_INT = -999
+
+
+def ugrid_mesh(c, *, maxn=4, fill='int_fill', start_index=0, transposed=False, **kw):
+    """A UGRID dataset whose face_node_connectivity *encodes an abstract mesh*: face f has count(f) in [3, maxn] nodes
+    node(f, 0..count-1) in [0, nnode); trailing entries are missing, written as ``fill``:
+      'none'     -> every face has maxn nodes, integer table without fill value
+      'int_fill' -> integer table, missing entries = _FillValue attribute (-999)
+      'nan'      -> float table, missing entries = NaN
+    stored values are node + start_index; ``transposed`` stores the table as (maxn, nface).
+    VALID-UGRID-MESH is this predicate."""
+    ds = ugrid(c, start_index=start_index, transposed=transposed, kw_maxn=maxn, **kw)
+    nface, nnode = ds.info['nface'], ds.info['nnode']
+    node = c.fresh_fn('mesh_node', z3.IntSort(), z3.IntSort(), z3.IntSort())
+    count = c.fresh_fn('mesh_count', z3.IntSort(), z3.IntSort())
+    si = start_index or 0
+
+    def cnt(f):
+        k = count(zint(f))
+        cc = core.ctx()
+        if fill == 'none':
+            cc.assume(k == maxn)
+        else:
+            cc.assume(z3.And(k >= 3, k <= maxn))
+        return mk_int(k)
+
+    def nd(f, col):
+        v = node(zint(f), zint(col))
+        core.ctx().assume(z3.And(v >= 0, v < zint(nnode)))
+        return mk_int(v)
+
+    def elem(f, col):
+        present = mk_bool(zint(col) < zint(cnt(f)))
+        if fill == 'nan':
+            return SFloat(s_ite(present, FIN, NAN), nd(f, col) + si)
+        if fill == 'int_fill':
+            return s_ite(present, nd(f, col) + si, FILL_INT)
+        return nd(f, col) + si
+    if transposed:
+        arr = NDArray((maxn, nface), lambda i: elem(i[1], i[0]), FLOAT64 if fill == 'nan' else INT32)
+        dims = ('maxn', 'nface')
+    else:
+        arr = NDArray((nface, maxn), lambda i: elem(i[0], i[1]), FLOAT64 if fill == 'nan' else INT32)
+        dims = ('nface', 'maxn')
+    attrs = dict(ds._vars['face_node'].attrs)
+    if fill == 'int_fill':
+        attrs['_FillValue'] = FILL_INT
+    ds._vars['face_node'] = Variable(dims, arr, attrs, {})
+    ds.info.update({'maxn': maxn, 'mesh_node': nd, 'mesh_count': cnt, 'fill': fill})
+    c.assumptions_used.add('VALID-UGRID-MESH: faces have 3..max_nodes nodes, listed first, indexes in range (after start_index); '
+                           'missing entries use the declared fill representation')
+    return ds
+
+
+BUILDERS['UGridMesh'] = ('emsarray.conventions.ugrid', 'UGrid', ugrid_mesh)
